@@ -28,7 +28,7 @@ def gen_cases(rep):
     out = []
     for fmt, spec in specs.items():
         for k in range(per):
-            es = C02.gen_sequence(r, fmt, spec)
+            es = C02.gen_sequence(r, fmt, spec, big=0.004)
             if not es:
                 continue
             opts = r.choice([o for o in spec.get("options", [b""]) if b"iso-level=4" not in o])   # iso-level=4 crashes: C02's finding
